@@ -277,6 +277,36 @@ def estimateMean (y sd : List Rat) : Rat × Rat × Rat :=
   let scale := (List.zipWith (fun yi wi => (yi - effect) * (yi - effect) * wi) y w).sum / ((y.length : Rat) - 1)
   (effect, scale, scale * posRecipr sw)
 
+
+/-! ### `estimate_varatio(Y, sd, df, niter)` (one column) -/
+
+/-- `value['fixed']`: the `df`-weighted average of the first-level variances,
+    `np.dot(df, S) / df.sum()` -/
+def fixedVar (df s : List Rat) : Rat := (List.zipWith (· * ·) df s).sum / df.sum
+
+/-- one EM pass on the reparametrised random-effects variance `sigma2`
+    (`Sm = S - minS`): `W = pos_recipr(Sm + sigma2)`, `mu = Σ W Y / Σ W`,
+    `R = W (Y - mu)`, `ptrS = 1 + Σ Sm W - Σ Sm W² / Σ W`,
+    `sigma2 ← (sigma2 ptrS + sigma2² Σ R²) / n`. -/
+def varatioStep (y sm : List Rat) (sigma2 : Rat) : Rat :=
+  let w := sm.map (fun s => posRecipr (s + sigma2))
+  let winv := posRecipr w.sum
+  let mu := winv * (List.zipWith (· * ·) w y).sum
+  let r2 := (List.zipWith (fun wi yi => (wi * (yi - mu)) * (wi * (yi - mu))) w y).sum
+  let ptrS := 1 + (List.zipWith (· * ·) sm w).sum - (List.zipWith (fun si wi => si * (wi * wi)) sm w).sum * winv
+  (sigma2 * ptrS + sigma2 * sigma2 * r2) / (y.length : Rat)
+
+/-- `(fixed, ratio, random)`; `red` is the constant `Sreduction` (0.99 as a double),
+    `mn` the minimum of `S` found by the implementation (`S.min(0)`), `S = 1 / pos_recipr(sd²)`. -/
+def estimateVaratio (y sd df : List Rat) (niter : Nat) (red mn : Rat) : Rat × Rat × Rat :=
+  let s := sd.map (fun v => 1 / posRecipr (v * v))
+  let minS := mn * red
+  let sm := s.map (· - minS)
+  let sigma0 := (y.map (fun u => (u - mean y) * (u - mean y))).sum / ((y.length : Rat) - 1)
+  let sigma2 := iter (varatioStep y sm) niter sigma0 - minS
+  let fixed := fixedVar df s
+  (fixed, sigma2 / fixed, sigma2)
+
 /-! ### p-values -/
 
 /-- `np.searchsorted(draws, t)` (side = left) on sorted draws = number of draws `< t` -/
@@ -382,6 +412,14 @@ def run : Toks → String
       | some (y, s) =>
           if y.length = s.length ∧ 2 ≤ y.length then
             let (a, b, c) := estimateMean y s; s!"{fmtRat a} {fmtRat b} {fmtRat c}"
+          else "bad-op"
+      | none => "bad-op"
+  | "varatio" :: rest =>
+      match runP (do let it ← pNat; let red ← pRat; let mn ← pRat; let y ← pList pRat; let sd ← pList pRat
+                     let df ← pList pRat; pure (it, red, mn, y, sd, df)) rest with
+      | some (it, red, mn, y, sd, df) =>
+          if y.length = sd.length ∧ y.length = df.length ∧ 2 ≤ y.length ∧ df.sum ≠ 0 ∧ sd.all (0 < ·) then
+            let (a, b, c) := estimateVaratio y sd df it red mn; s!"{fmtRat a} {fmtRat b} {fmtRat c}"
           else "bad-op"
       | none => "bad-op"
   | "pval" :: rest =>
